@@ -358,6 +358,14 @@ def D.onEvent (d : D) (e : Ev) : M D := do
     | pc => throw s!"worker decodes but the model decided {repr pc}"
   | 204 =>
     let i ← d.worker e
+    -- the hypothesis of the termination theorem (`Progressive`): every Block decoder call returns a verdict, consumes input,
+    -- produces output, or was called without input (first call after PARTIAL_START)
+    let w := getW d.s i
+    let noInput := match w.pc with
+      | .decode lim _ => lim == w.inPos
+      | _ => false
+    check (e.a != 0 || w.inPos < e.b || w.outPos < e.c || noInput)
+      s!"Block decoder call without progress: LZMA_OK with in_pos {w.inPos} -> {e.b}, out_pos {w.outPos} -> {e.c}"
     d.fire (.wDecode i e.b e.c (e.a != 0))
   | 205 =>
     let i ← d.worker e
@@ -394,6 +402,11 @@ def D.feed (d : D) (e : Ev) : M D := do
   else d.onEvent e
 
 def replay (cfg : Cfg) (evs : Array Ev) (pre : Pre) : String := Id.run do
+  -- the input hypothesis `FitsInput` of the can-start / termination theorems: SEQ_BLOCK_INIT sends a Block to the threaded path
+  -- only if mem_next_block fits memlimit_threading
+  match pre.blocks.toList.find? (fun b => b.kind == .thr && b.memThr + b.memOut > cfg.memLimit) with
+  | some b => return s!"reject at=0 ev=107.0.0.0.0.0 why=threaded Block with mem_next_block {b.memThr + b.memOut} > memlimit_threading {cfg.memLimit}"
+  | none => pure ()
   let mut d : D := { s := init cfg pre.blocks.toList, failFast := cfg.failFast }
   let mut k := 0
   for e in evs do
